@@ -27,6 +27,14 @@ CLAIMS = {
         "cos(beta-alpha) >= 1e-6 is required for the mixing-angle clause (at cos(beta-alpha)=0 the sign of sin(beta-alpha) is a field redefinition); "
         "the gauge-basis round trip is functional determinism of the same mass-matrix code; IEEE rounding is not covered.",
    technique="WP/symbolic execution of extracted real methods + z3 NRA with lemma chaining; numeric refutation + native replay for counterexamples", design='5 C08'),
+ 'C09': dict(
+   text="Relational contracts on the real THDM Yukawa getters, for ALL parameter values: get_zeta_f equals Table 1 of arXiv:1607.06292; a type I/II/X/Y model and "
+        "the aligned model with those zeta_f return identical zeta_f, rho_f and all twelve Yukawa matrices; the aligned model (zeta_f, Delta_f) and the general model "
+        "with the encoding Pi_f return identical rho_f and Yukawa matrices; two models differing only in parameters documented as ignored return identical "
+        "getters and identical Gamma_f/Pi_f after init_yukawas; validate() only warns.  Every a_mu routine reads the Yukawa sector only through these getters.",
+   note=NOTE_COMMON + "The chain from equal getters to equal a_mu is by functional determinism of the a_mu routines (they read the model only through getters: C19); "
+        "running masses enter through get_mu/md/ml by contract (independent of the parametrisation).",
+   technique="relational lemmas by symbolic execution of the extracted real getters + z3", design='5 C09'),
  'C18': dict(
    text="All clauses of C18 are postconditions of the ten real uncertainty functions: floors (2.3e-10 / 2e-12), non-negativity, finiteness, "
         "1L = |a2L| + delta2L, 0L = documented sum are proved in IEEE-754 arithmetic by CBMC code contracts for all doubles satisfying the stated "
